@@ -22,7 +22,7 @@ def oracle(prog, vec, mode, n, p, o, extra):
 
 def run(ctx):
     cfg = e1.standard_configs(ctx)
-    e1.sweep(ctx, E.depth1_programs(), cfg, "pv.checks.c01.oracle", modes=MODES)
+    e1.sweep(ctx, E.depth1_programs(include_fxp=True), cfg, "pv.checks.c01.oracle", modes=MODES)
     # depth 2 on the complete interval D(2) (D(3) in the thorough tier)
     from ..recorder import BN128, BLS12_381
     d2 = X.depth2_family(ctx)
